@@ -111,9 +111,10 @@ theorem C01_recorded_perm {γ} (s : St) (hinv : InvA s) (hsok : ∀ u ∈ buffer
   have e1 : ((views s).flatMap (fun v => (C01_recorded v).map (fun o => (false, F v o)))).map Prod.snd =
       (views s).flatMap (fun v => (C01_recorded v).map (F v)) := by
     rw [List.map_flatMap]; congr 1; funext v; rw [List.map_map]; rfl
-  have e2 : (((buffered s).map (fun u => (u.synth, G u.th u.t u.weight))).filter (fun x => !x.1)).map Prod.snd =
+  have e2 : ((((buffered s).filter (fun u => !u.marker)).map (fun u => (u.synth, G u.th u.t u.weight))).filter
+        (fun x => !x.1)).map Prod.snd =
       ((buffered s).filter (fun u => !u.synth)).map (fun u => G u.th u.t u.weight) := by
-    rw [List.filter_map, List.map_map]; rfl
+    rw [List.filter_map, List.map_map, ← filter_marker_synthU (buffered s)]; rfl
   rw [e1, e2] at h2
   exact h2
 
@@ -257,6 +258,125 @@ theorem C01_membership (cfg : Config) (rs : List Rec) (hr : cfg.reuse = false) (
     simp only [Prod.mk.injEq] at heq
     exact ⟨v, hv, heq.1, heq.2.1, o, ho, heq.2.2.1⟩
 
+/-! ### Samples of another event (`Rec.otherEvent`, `handle_other_event_sample`) contribute no sample
+
+`C01_conservation`, `C01_conservation_entry`, `C01_conservation_reuse`, `C01_count`, `C01_weight_one`,
+`C01_membership` quantify over every record history, other-event samples included: the specification `accepted`
+does not read them (`C01_other_event_not_accepted`), so each of those theorems says that the recorded samples of
+the output are the accepted main-event samples of the history **with the other-event records removed**
+(`C01_conservation_other_event`); the marker items they create never appear among a thread's samples
+(`C01_no_marker_among_samples`) and are not recorded samples of the buffer (`C01_other_event_step`). -/
+
+/-- the record is a sample of another event -/
+def C01_isOev : Rec → Bool
+  | .otherEvent .. => true
+  | _ => false
+
+/-- the specification does not read other-event samples: the accepted samples of a history are those of the
+history without them -/
+theorem C01_other_event_not_accepted (rs : List Rec) :
+    accepted rs = accepted (rs.filter (fun r => !C01_isOev r)) := by
+  unfold accepted
+  suffices h : ∀ st : Last × List Acc, rs.foldl accStep st = (rs.filter (fun r => !C01_isOev r)).foldl accStep st by
+    rw [h]
+  induction rs with
+  | nil => intro st; rfl
+  | cons r rs ih =>
+    intro st
+    cases r with
+    | otherEvent pid tid t km ip chain =>
+      have e : accStep st (.otherEvent pid tid t km ip chain) = st := rfl
+      simp only [List.foldl_cons, List.filter_cons, C01_isOev, Bool.not_true, Bool.false_eq_true, if_false, e]
+      exact ih st
+    | sample => simp only [List.foldl_cons, List.filter_cons, C01_isOev, Bool.not_false, if_true]; exact ih _
+    | fork => simp only [List.foldl_cons, List.filter_cons, C01_isOev, Bool.not_false, if_true]; exact ih _
+    | exit => simp only [List.foldl_cons, List.filter_cons, C01_isOev, Bool.not_false, if_true]; exact ih _
+    | comm => simp only [List.foldl_cons, List.filter_cons, C01_isOev, Bool.not_false, if_true]; exact ih _
+    | mmap2 => simp only [List.foldl_cons, List.filter_cons, C01_isOev, Bool.not_false, if_true]; exact ih _
+    | switchIn => simp only [List.foldl_cons, List.filter_cons, C01_isOev, Bool.not_false, if_true]; exact ih _
+    | switchOut => simp only [List.foldl_cons, List.filter_cons, C01_isOev, Bool.not_false, if_true]; exact ih _
+    | sched => simp only [List.foldl_cons, List.filter_cons, C01_isOev, Bool.not_false, if_true]; exact ih _
+
+/-- **Conservation with other-event samples in the history**: the recorded samples of the output of the whole
+history are exactly the accepted samples of the history from which every other-event sample has been removed —
+an other-event sample adds no sample, removes none and moves none (default options; `C01_conservation_reuse`
+reads the same way for `--reuse-threads`). -/
+theorem C01_conservation_other_event (cfg : Config) (rs : List Rec) (hr : cfg.reuse = false) :
+    List.Perm
+      ((views (run cfg rs)).flatMap (fun v => (C01_recorded v).map (fun o => (v.pidBase, v.tidBase, o.t, o.weight))))
+      ((accepted (rs.filter (fun r => !C01_isOev r))).map (fun a => (a.pid, a.tid, a.t - cfg.ref, 1))) := by
+  rw [← C01_other_event_not_accepted]
+  exact C01_conservation cfg rs hr
+
+theorem C01_viewsAux_mem {s : St} {out : List (Nat × OutSample)} {v : View} :
+    ∀ (rest : List TEntry) (i : Nat), v ∈ viewsAux s out i rest → ∃ j te, viewOf s out j te = some v := by
+  intro rest
+  induction rest with
+  | nil => intro i h; simp [viewsAux] at h
+  | cons te rest ih =>
+    intro i h
+    unfold viewsAux at h
+    cases hv : viewOf s out i te with
+    | none => rw [hv] at h; exact ih (i + 1) h
+    | some w =>
+      rw [hv] at h
+      rcases List.mem_cons.mp h with h | h
+      · exact ⟨i, te, by rw [hv, h]⟩
+      · exact ih (i + 1) h
+
+/-- no marker item is ever emitted as a sample: every element of a view's sample list went through
+`Profile::add_sample` (and every element of its marker list through `set_marker_stack`) -/
+theorem C01_no_marker_among_samples (s : St) :
+    ∀ v ∈ views s, (∀ o ∈ v.samples, o.marker = false) ∧ (∀ o ∈ v.markers, o.marker = true) := by
+  intro v hv
+  obtain ⟨j, te, hj⟩ := C01_viewsAux_mem s.tents 0 hv
+  unfold viewOf at hj
+  split at hj
+  · cases hj
+  · simp only [Option.some.injEq] at hj
+    rw [← hj]
+    refine ⟨fun o ho => ?_, fun o ho => ?_⟩
+    · have := (List.mem_filter.mp ho).2
+      simpa using this
+    · exact (List.mem_filter.mp ho).2
+
+/-- one other-event sample: the buffers gain exactly one item, a marker item, which is not a recorded sample;
+the thread entries it is attached to are those of (pid, tid) (created on demand) -/
+theorem C01_other_event_step (cfg : Config) (rs : List Rec) (pid tid t : Nat) (km : Bool) (ip : Nat)
+    (chain : List Nat) :
+    ∃ u : USample, u.marker = true ∧ u.synth = true ∧ u.gpid = pid ∧ u.gtid = tid ∧ u.t = t - cfg.ref ∧
+      List.Perm (buffered (run cfg (rs ++ [.otherEvent pid tid t km ip chain]))) (buffered (run cfg rs) ++ [u]) := by
+  have hsim := run_sim cfg rs
+  have hrun : run cfg (rs ++ [.otherEvent pid tid t km ip chain]) =
+      step (run cfg rs) (.otherEvent pid tid t km ip chain) := by
+    unfold run; rw [List.foldl_append]; rfl
+  rw [hrun]
+  generalize run cfg rs = s at hsim
+  have e : step s (.otherEvent pid tid t km ip chain) =
+      commitThread (getThread (getByPid s pid).1 (getByPid s pid).2 tid).1
+        (getThread (getByPid s pid).1 (getByPid s pid).2 tid).2.1 tid
+        (otherEventThread (getThread (getByPid s pid).1 (getByPid s pid).2 tid).1
+          (getThread (getByPid s pid).1 (getByPid s pid).2 tid).2.2 pid tid t
+          (sampleStack (getThread (getByPid s pid).1 (getByPid s pid).2 tid).1.cfg km ip chain)) := rfl
+  rw [e]
+  generalize hgb : getByPid s pid = r1
+  obtain ⟨s1, p1⟩ := r1
+  generalize hgt : getThread s1 p1 tid = r2
+  obtain ⟨s2, p2, th⟩ := r2
+  simp only []
+  obtain ⟨g1, hp1⟩ := getByPid_spec hsim.inv hgb
+  have hpid1 := (g1.inv.get hp1).1
+  obtain ⟨g2, hp2, hpid2, hth⟩ := getThread_spec g1.inv (by rw [hpid1]; exact hp1) hgt
+  rw [hpid1] at hp2 hpid2
+  obtain ⟨_, _, _, _, hbuf, _⟩ := commit_spec (otherEventThread s2 th pid tid t (sampleStack s2.cfg km ip chain))
+    g2.inv (by rw [hpid2]; exact hp2) hth rfl
+  have hc : s2.cfg = cfg := (g2.cfg.trans g1.cfg).trans hsim.hcfg
+  refine ⟨markerItem s2 th.h pid tid t (sampleStack s2.cfg km ip chain), rfl, rfl, rfl, rfl, ?_, ?_⟩
+  · show conv s2 t = t - cfg.ref
+    unfold conv; rw [hc]
+  · refine hbuf.trans (List.Perm.append_right _ ?_)
+    exact g2.buf.trans g1.buf
+
 /-! ### Panics: the hypothesis "per-thread sample times nondecreasing"
 
 `handle_main_event_sample` hands *every* sample to `ContextSwitchHandler::handle_on_cpu_sample`
@@ -345,3 +465,14 @@ example : ((views (run {} C01_exReuse)).flatMap (fun v => v.samples.map (fun o =
 hypothesis), while the unkeyed multiset of `C01_conservation_reuse` is unchanged -/
 example : ((views (run { reuse := true } C01_exReuse)).flatMap (fun v => v.samples.map (fun o => (v.pidBase, v.tidBase, o.t, o.weight))))
     = [(100, 101, 12, 1), (100, 101, 15, 1)] := by decide
+
+/-- a history with other-event samples: on a thread with samples, on a thread first seen through the other event,
+and at the timestamp of a main-event sample (no dedup across events): two samples, three marker stacks -/
+def C01_exOev : List Rec :=
+  [.comm 100 100 "a" false 10, .sample 100 100 12 false 1 0x10 [], .otherEvent 100 101 13 false 0x20 [],
+   .otherEvent 100 100 14 false 0x20 [], .sample 100 100 14 false 1 0x10 [], .otherEvent 100 100 14 true 0x30 []]
+
+example : (accepted C01_exOev).map (fun a => (a.pid, a.tid, a.t)) = [(100, 100, 12), (100, 100, 14)] ∧
+    ((views (run { ref := 12 } C01_exOev)).map
+      (fun v => (v.pidBase, v.tidBase, (C01_recorded v).map (fun o => (o.t, o.weight)), v.markers.map (·.t)))) =
+      [(100, 100, [(0, 1), (2, 1)], [2, 2]), (100, 101, [], [1])] := by decide
